@@ -247,6 +247,25 @@ impl<'tcx> Cx<'tcx> {
                                     if let Some(vn) = enum_variant_name(tcx, pointee, bytes) {
                                         let _ = write!(s, ",\"variant\":{}", esc(&vn));
                                     }
+                                } else if layout.is_sized() && layout.size == tcx.data_layout.pointer_size() && alloc.inner().provenance().ptrs().len() == 1 {
+                                    // the pointee is itself one thin pointer (`&Some(&BYTE)`, `&&X`): dump what that points to
+                                    if let Some((poff, prov)) = alloc.inner().provenance().ptrs().iter().next() {
+                                        if poff.bytes() as usize == start {
+                                            if let Some(rustc_middle::mir::interpret::GlobalAlloc::Memory(inner)) = tcx.try_get_global_alloc(prov.alloc_id()) {
+                                                if inner.inner().provenance().ptrs().is_empty() {
+                                                    let raw = alloc.inner().inspect_with_uninit_and_ptr_outside_interpreter(start..end);
+                                                    let mut off: usize = 0;
+                                                    for (i, b) in raw.iter().enumerate() { off |= (*b as usize) << (8 * i); }
+                                                    let len = inner.inner().len();
+                                                    if off <= len {
+                                                        let stop = (off + 64).min(len);
+                                                        let bytes = inner.inner().inspect_with_uninit_and_ptr_outside_interpreter(off..stop);
+                                                        let _ = write!(s, ",\"ptr_to_bytes\":{}", esc(&hex(bytes)));
+                                                    }
+                                                }
+                                            }
+                                        }
+                                    }
                                 }
                             }
                         }
